@@ -3,6 +3,7 @@ import NixModel.Lemmas.UnitsLemmas
 import NixModel.Lemmas.UnitsRel
 import NixModel.Lemmas.UnitsCompound
 import NixModel.Lemmas.UnitsSound
+import NixModel.Lemmas.UnitsScalingEq
 
 /-!
 # C09 — SI unit recognition and scaling are exact and consistent
@@ -142,6 +143,23 @@ theorem compound_all_powers (p₁ u₁ w₁ p₂ u₂ w₂ : Str) (sep : Char) (
     isCompound ((p₁ ++ u₁ ++ w₁) ++ sep :: (p₂ ++ u₂ ++ w₂) ++ tail) = true ∧
     isSi ((p₁ ++ u₁ ++ w₁) ++ sep :: (p₂ ++ u₂ ++ w₂) ++ tail) = true :=
   compound_atoms_generic p₁ u₁ w₁ p₂ u₂ w₂ sep tail h₁ hu₁ hw₁ h₂ hu₂ hw₂ hsep
+
+/-! ## The statement shape of `scaling()`
+
+`Scaling.scaling` interprets the shape of `scaling()` regenerated from the source into
+`Generated/UnitsScaling.lean` (shortcut comparisons, the if/elif chain on the prefixes with the expression each
+branch assigns, which power is applied); it is the function the driver runs against the implementation. -/
+
+/-- the regenerated shape computes the hand-written model for all inputs: every theorem about `scaling` in this
+file is a theorem about the code's branches as they are in the source today -/
+theorem scaling_shape (a b : Str) : Scaling.scaling a b = scaling a b := scalingGen_eq a b
+
+/-- in particular: the prefix ratio to the power, for every power text -/
+theorem scaling_shape_ratio (p₁ p₂ u w : Str) (h₁ : p₁ ∈ optPrefixes) (h₂ : p₂ ∈ optPrefixes)
+    (hu : u ∈ units) (hw : PowerText w) :
+    Scaling.scaling (p₁ ++ u ++ w) (p₂ ++ u ++ w) = .ok (tenPow (expOf p₁ - expOf p₂) ^ powVal w) := by
+  rw [scalingGen_eq]
+  exact (scaling_atoms_generic p₁ p₂ u w h₁ h₂ hu hw).2
 
 /-! ## `scalable` as a relation on arbitrary strings -/
 
